@@ -76,6 +76,9 @@ static void build_variants(bool thorough) {
         ref::Seg4 z; z.start = 0x10000 - tail; z.end = 0xFFFF; z.use_array = arr != 0; z.delta = arr ? 0 : uint16_t(0x200 - z.start); if (arr) for (unsigned k = 0; k < tail; ++k) z.arr.push_back(uint16_t(0x200 + k)); sg.push_back(z);
         std::vector<ref::EncRec> recs; recs.push_back({ 3, 1, ref::build_fmt4(sg) }); v.cmap = ref::build_cmap(recs); g_var.push_back(v);
     }
+    // subtables stored in the opposite order of their encoding records (format 12 data before format 4 data)
+    for (int k12 : { 1, 3 }) for (int ns : { 2, 17 }) { Variant v; v.shipped = false; v.name = "syn reversed-data seg=" + std::to_string(ns) + " fmt12=" + std::to_string(k12);
+        std::vector<ref::EncRec> recs; recs.push_back({ 3, 1, ref::build_fmt4(fmt4_family(ns, 3, 0)) }); recs.push_back({ 3, 10, ref::build_fmt12(fmt12_family(k12)) }); v.cmap = ref::build_cmap(recs, true); g_var.push_back(v); }
     // encoding-record preference: every presence combination, each subtable mapping 'A' to a different glyph
     static const int bmp[5][2] = { {0,0}, {0,1}, {0,2}, {0,3}, {3,1} };      // already sorted by (platform, encoding)
     for (int mask = 1; mask < 32; ++mask) for (int sm = 0; sm < 4; ++sm) {
